@@ -42,6 +42,28 @@ pub open spec fn is_int_base(base: Type) -> bool {
         _ => false,
     }
 }
+/// the last path segment is one of the signed integer names
+pub open spec fn base_is_signed(base: Type) -> bool {
+    base is Raw && base->Raw_0.0@.len() > 0 && ({
+        let n = base->Raw_0.0@.last().0@;
+        n == "i8"@ || n == "i16"@ || n == "i32"@ || n == "i64"@ || n == "i128"@
+    })
+}
+pub open spec fn width_min(size: usize, signed: bool) -> int {
+    if size == 1 { -0x80 } else if size == 2 { -0x8000 } else if size == 4 { -0x8000_0000 } else { i128::MIN as int }
+}
+pub open spec fn width_max(size: usize, signed: bool) -> int {
+    if size == 1 { if signed { 0x7f } else { 0xff } } else if size == 2 { if signed { 0x7fff } else { 0xffff } }
+    else if size == 4 { if signed { 0x7fff_ffff } else { 0xffff_ffff } } else { i128::MAX as int }
+}
+/// representable in `size` bytes: exactly the signed range for a signed base; for an unsigned base the unsigned range
+/// and, below zero, the two's-complement spelling of a value (`-1` = all bits set; pinned by the suite's `can_resolve_enum`)
+pub open spec fn fits_width(size: usize, signed: bool, v: isize) -> bool {
+    if size == 1 { -0x80 <= v <= (if signed { 0x7fint } else { 0xffint }) }
+    else if size == 2 { -0x8000 <= v <= (if signed { 0x7fffint } else { 0xffffint }) }
+    else if size == 4 { -0x8000_0000 <= v <= (if signed { 0x7fff_ffffint } else { 0xffff_ffffint }) }
+    else { true }
+}
 /// range of the built-in integer types (Rust reference); any other base type: no constraint stated
 pub open spec fn fits_base(base: Type, v: isize) -> bool {
     match base {
